@@ -471,6 +471,105 @@ Proof.
     + rewrite len_cons. replace (r + (len more + 1)) with (r + 1 + len more) by lia. exact HG2.
 Qed.
 
+Lemma nows_app_l a b : nows (a ++ b) -> nows a.
+Proof. destruct a; cbn; auto. Qed.
+
+Lemma Good_drop c r inds vals : 0 <= r -> Good (fun x => if x <? c then r + 1 else r) inds vals -> Good (fun _ => r) inds vals.
+Proof. intros Hr HG. eapply Good_weaken; [exact HG|]. intros x Hx. cbv beta. destruct (x <? c); lia. Qed.
+
+(* the record that the end of the window cuts: p is a proper, non-empty prefix of its rendering *)
+Lemma run_partial_cells r : 0 <= r < nrows -> r + 1 <= maxrow -> forall cells c i e inds vals p q,
+  cells <> [] -> 0 <= c -> c + len cells = ncols -> 0 <= i ->
+  suf src i = p -> p <> [] -> render_row cells = p ++ q -> q <> [] ->
+  (forall j, 0 <= j < len cells -> snd (nthd (false, []) cells j) = cell_text rows r (c + j)) ->
+  Good (fun x => if x <? c then r + 1 else r) inds vals ->
+  exists s, reaches (cstate i e c r inds vals) s /\
+    s_index s = len src /\ s_eol s = e /\ s_row s = r /\ s_ifull s = false /\ s_vfull s = false /\
+    Good (fun _ => r) (s_inds s) (s_vals s).
+Proof.
+  intros Hr Hrm. assert (Er : (0 <=? r) = true) by (apply Z.leb_le; lia).
+  assert (Er2 : (r <? 0) = false) by (apply Z.ltb_ge; lia).
+  induction cells as [|cl cells IH]; intros c i e inds vals p q Hne Hc Hlen Hi H Hp Hq Hqne Htxt HG; [contradiction|].
+  assert (Htc : snd cl = cell_text rows r c).
+  { specialize (Htxt 0). rewrite Z.add_0_r in Htxt. apply Htxt. rewrite len_cons. pose proof (len_nonneg cells). lia. }
+  assert (Hcn : 0 <= c < ncols) by (rewrite len_cons in Hlen; pose proof (len_nonneg cells); lia).
+  assert (Hfc : (if c <? c then r + 1 else r) = r) by (rewrite Z.ltb_irrefl; reflexivity).
+  pose proof (Good_fits ncols w V offs rows Hoffs0 Hbudget HV _ inds vals c r HG Hcn Hr) as (F1 & F2 & F3).
+  assert (Hcs : I2 inds c r = P rows c r).
+  { destruct HG as (_ & _ & HGc). destruct (HGc c Hcn) as (_ & Hk & _). apply Hk. rewrite Hfc. lia. }
+  assert (Hsh : shape ncols w inds) by (destruct HG as (Hsh & _); exact Hsh).
+  pose proof (Good_cell ncols w V offs rows Hoffs0 Hbudget HV _ inds vals c r HG Hcn Hfc Hr ltac:(unfold w; lia)) as HG1.
+  assert (Hfit : fits r (I2 inds c r) (nthZ offs c) (nthZ offs (c + 1) - nthZ offs c) 0 vals (snd cl)).
+  { unfold fits. intros _. rewrite Hcs, Htc. lia. }
+  pose proof (len_nonneg (render_cell cl)) as Hl.
+  (* the window ends inside (or right at the end of) this cell *)
+  assert (CaseA : forall l, render_cell cl = p ++ l ->
+    exists s, reaches (cstate i e c r inds vals) s /\
+      s_index s = len src /\ s_eol s = e /\ s_row s = r /\ s_ifull s = false /\ s_vfull s = false /\
+      Good (fun _ => r) (s_inds s) (s_vals s)).
+  { intros l E1.
+    destruct (run_cell_end e c r (-1) (I2 inds c r) i (nthZ offs c) (nthZ offs (c + 1) - nthZ offs c) inds cl i vals p l
+                eq_refl Hi H Hp E1 Hfit) as (s & R & (esc & cand & k & tp & tq & Et & Es)).
+    exists s. split; [exact R|]. subst s. unfold S0. cbn [s_index s_eol s_row s_ifull s_vfull s_inds s_vals].
+    do 5 (split; [reflexivity|]). rewrite Er, Hcs. apply (Good_drop c r); [lia|].
+    apply (Good_partial _ inds vals c r tp tq); try assumption. rewrite <- Htc. exact Et. }
+  assert (Hrow : exists d R, render_row (cl :: cells) = render_cell cl ++ d :: R /\
+                   ((R = [] /\ cells = []) \/ (d = SEP /\ R = render_row cells /\ cells <> []))).
+  { destruct cells as [|cl2 cells'].
+    - exists NL, []. split; [reflexivity|left; auto].
+    - exists SEP, (render_row (cl2 :: cells')). split; [reflexivity|right]. repeat split. discriminate. }
+  destruct Hrow as (d & R & Erow & Hd). rewrite Erow in Hq.
+  destruct (app_eq_app _ _ _ _ Hq) as (l & [(E1 & E2)|(E1 & E2)]).
+  - apply (CaseA l E1).
+  - destruct l as [|d' p2].
+    + rewrite app_nil_r in E1. apply (CaseA []). rewrite app_nil_r. symmetry. exact E1.
+    + cbn [app] in E2. inversion E2 as [[Hd' HR]]. subst d'.
+      destruct Hd as [(HR0 & _)|(Hd & HRr & Hmore)].
+      { exfalso. rewrite HR0 in HR. destruct p2; [cbn in HR; subst q; contradiction|discriminate]. }
+      subst d. rewrite E1 in H.
+      destruct (run_cell src offs maxrow e c r (-1) (I2 inds c r) (nthZ offs c) (nthZ offs (c + 1) - nthZ offs c) inds cl i vals SEP
+                  p2 Hi H ltac:(auto) Hfit) as (n & Rn).
+      rewrite Er in Rn.
+      pose proof (suf_app_len src i _ _ Hi H) as Hs.
+      assert (Hlm : len (cl :: cells) = len cells + 1) by apply len_cons.
+      assert (Hlm0 : 1 <= len cells).
+      { destruct cells; [contradiction|]. rewrite len_cons. pose proof (len_nonneg cells). lia. }
+      rewrite Hlm in Hlen.
+      assert (Hnp2 : nows p2).
+      { apply (nows_app_l p2 q). rewrite <- HR, HRr. rewrite <- (app_nil_r (render_row cells)). apply nows_render_row. exact Hmore. }
+      pose proof (step_sep src offs maxrow ncols Hoffs (i + len (render_cell cl)) e c r (-1) (len (snd cl)) (I2 inds c r) i
+                    (nthZ offs c) (nthZ offs (c + 1) - nthZ offs c) inds (wrs vals (nthZ offs c + I2 inds c r) (snd cl))
+                    p2 ltac:(lia) Hs Hnp2 Hsh Hc ltac:(lia) ltac:(lia) ltac:(unfold w; lia)) as Hst.
+      rewrite Er, Er2 in Hst. cbv zeta in Hst. rewrite Hcs, Htc in Hst.
+      set (inds1 := put2 inds c (r + 1) (P rows c r + len (cell_text rows r c))) in *.
+      set (vals1 := wrs vals (nthZ offs c + P rows c r) (cell_text rows r c)) in *.
+      destruct (suf_cons src (i + len (render_cell cl)) SEP _ ltac:(lia) Hs) as (Hlt & _ & Hs2 & _).
+      assert (HG2 : Good (fun x => if x <? c + 1 then r + 1 else r) inds1 vals1).
+      { eapply Good_ext; [|exact HG1]. intros x Hx. cbv beta. apply lt_succ_fun. }
+      assert (Hst' : step (S0 e c r (-1) (I2 inds c r) i (nthZ offs c) (nthZ offs (c + 1) - nthZ offs c) inds
+                             (i + len (render_cell cl)) false false (len (snd cl))
+                             (wrs vals (nthZ offs c + I2 inds c r) (snd cl))) =
+                     Ok (cstate (i + len (render_cell cl) + 1) e (c + 1) r inds1 vals1)).
+      { unfold S0. rewrite Hcs, Htc. fold vals1. rewrite Hst. unfold CsvRows.cstate.
+        replace (c + 1 + 1) with (c + 2) by lia. reflexivity. }
+      destruct p2 as [|z p3].
+      * (* the separator is the last byte of the window *)
+        apply suf_nil_iff in Hs2; try lia.
+        exists (cstate (i + len (render_cell cl) + 1) e (c + 1) r inds1 vals1). split.
+        -- eapply reaches_runn; [exact Rn|]. apply reaches_step. exact Hst'.
+        -- unfold CsvRows.cstate. cbn [s_index s_eol s_row s_ifull s_vfull s_inds s_vals].
+           split; [lia|]. do 4 (split; [reflexivity|]). apply (Good_drop (c + 1) r); [lia|exact HG2].
+      * destruct (IH (c + 1) (i + len (render_cell cl) + 1) e inds1 vals1 (z :: p3) q Hmore ltac:(lia) ltac:(lia) ltac:(lia) Hs2
+                     ltac:(discriminate)) as (s & R2 & Hfin); try assumption.
+        { rewrite <- HRr. exact HR. }
+        { intros j Hj. specialize (Htxt (j + 1)). rewrite Hlm in Htxt. specialize (Htxt ltac:(lia)).
+          rewrite nthd_cons_succ in Htxt by lia. rewrite Htxt. f_equal. lia. }
+        exists s. split; [|exact Hfin].
+        eapply reaches_runn; [exact Rn|]. eapply reaches_cons; [exact Hst'| |exact R2].
+        unfold noexit, CsvRows.cstate. cbn [s_index s_ifull s_vfull].
+        destruct (suf_cons src (i + len (render_cell cl) + 1) _ _ ltac:(lia) Hs2) as (Hlt2 & _). repeat split; lia.
+Qed.
+
 End Data2.
 
 End Pre.
